@@ -5,7 +5,7 @@ syntactic position, with literal (foldable) and run-time operands — implementa
 import progprop
 from gen.programs import INT, BOOL, STR, FLOAT, tup, fn, iter_of, arr, cell
 
-THM_MODULES = ["SslModel.Thm.C07"]
+THM_MODULES = ["SslModel.Thm.C07", "SslModel.Thm.C07Seq"]
 TRANSLATE_PARTS = ["scalar"]
 
 I = lambda n: ("i", n)
